@@ -7,7 +7,7 @@ for d in /verif/seeded/*/; do
   id=$(basename $d); p=${id%%-*}
   checks=$p
   [ "$id" = "C10-b1" ] && checks="C10 C03"
-  line=$(/verif/tools/try_mutant.sh $d/patch.diff $checks 2>&1 | tr '\n' ' ' | cut -c1-300)
-  echo "$id :: $line" | tee -a $out.tmp
+  line=$(timeout 1500 /verif/tools/try_mutant.sh $d/patch.diff $checks 2>&1 | tr '\n' ' ' | cut -c1-300)
+  git -C /repo checkout -- . ; echo "$id :: $line" | tee -a $out.tmp
 done
 mv $out.tmp $out
